@@ -158,6 +158,9 @@ type store struct {
 	mainStore  spi.Store
 	cacheStore spi.Store
 	close      closer
+	// lock keeps the main store and the cache store in step: every operation that writes to both (or reads one and
+	// then fills the other) excludes the others.
+	lock sync.RWMutex
 }
 
 func (s *store) Put(key string, value []byte, tags ...spi.Tag) error {
@@ -170,6 +173,9 @@ func (s *store) Put(key string, value []byte, tags ...spi.Tag) error {
 			return fmt.Errorf(invalidTagValue, tag.Value)
 		}
 	}
+
+	s.lock.Lock()
+	defer s.lock.Unlock()
 
 	err := s.mainStore.Put(key, value, tags...)
 	if err != nil {
@@ -185,6 +191,9 @@ func (s *store) Put(key string, value []byte, tags ...spi.Tag) error {
 }
 
 func (s *store) Get(key string) ([]byte, error) {
+	s.lock.Lock()
+	defer s.lock.Unlock()
+
 	value, err := s.cacheStore.Get(key)
 	if err == nil { // Cache hit.
 		return value, nil
@@ -213,6 +222,9 @@ func (s *store) Get(key string) ([]byte, error) {
 }
 
 func (s *store) GetTags(key string) ([]spi.Tag, error) {
+	s.lock.RLock()
+	defer s.lock.RUnlock()
+
 	tags, err := s.cacheStore.GetTags(key)
 	if err == nil { // Cache hit.
 		return tags, nil
@@ -232,6 +244,9 @@ func (s *store) GetTags(key string) ([]spi.Tag, error) {
 // TODO (#2476): Add caching support to this method by having it trying to fetch as many values as possible from
 //  the cache provider, and only resort to the main provider for thos values that aren't found.
 func (s *store) GetBulk(keys ...string) ([][]byte, error) {
+	s.lock.RLock()
+	defer s.lock.RUnlock()
+
 	values, err := s.mainStore.GetBulk(keys...)
 	if err != nil {
 		return nil, fmt.Errorf("failed to get values from the main store: %w", err)
@@ -242,6 +257,9 @@ func (s *store) GetBulk(keys ...string) ([][]byte, error) {
 
 // Can't use the cache store here since it might be missing data that's in the main store.
 func (s *store) Query(expression string, options ...spi.QueryOption) (spi.Iterator, error) {
+	s.lock.RLock()
+	defer s.lock.RUnlock()
+
 	iterator, err := s.mainStore.Query(expression, options...)
 	if err != nil {
 		return nil, fmt.Errorf("failed to query the main store: %w", err)
@@ -251,6 +269,9 @@ func (s *store) Query(expression string, options ...spi.QueryOption) (spi.Iterat
 }
 
 func (s *store) Delete(key string) error {
+	s.lock.Lock()
+	defer s.lock.Unlock()
+
 	err := s.mainStore.Delete(key)
 	if err != nil {
 		return fmt.Errorf("failed to delete data in the main store: %w", err)
@@ -265,6 +286,9 @@ func (s *store) Delete(key string) error {
 }
 
 func (s *store) Batch(operations []spi.Operation) error {
+	s.lock.Lock()
+	defer s.lock.Unlock()
+
 	err := s.mainStore.Batch(operations)
 	if err != nil {
 		return fmt.Errorf("failed to perform operations in the main store: %w", err)
@@ -279,6 +303,9 @@ func (s *store) Batch(operations []spi.Operation) error {
 }
 
 func (s *store) Flush() error {
+	s.lock.Lock()
+	defer s.lock.Unlock()
+
 	err := s.mainStore.Flush()
 	if err != nil {
 		return fmt.Errorf("failed to flush the main store: %w", err)
